@@ -129,11 +129,16 @@ impl BlockIndexRecord {
             key@.len() == 32,
             value_fits(values@),
         ensures
-            //# C03:record_fields_are_the_six_varints_in_core_order
+            //# C03:record_fields_are_the_varints_of_core_s_disk_index_in_order   (nFile / nDataPos only where Core stores them)
             match rec_of(key@, values@) {
                 Some(s) => r is Ok && rec_view(r->Ok_0) == s,
                 None => r is Err,
             },
+//@before `let blk_index = if status`
+        assert(BLOCK_HAVE_DATA | BLOCK_HAVE_UNDO == 24u64) by(bit_vector) requires BLOCK_HAVE_DATA == 8u64, BLOCK_HAVE_UNDO == 16u64;
+        assert(has_file(status as int) == (status & (BLOCK_HAVE_DATA | BLOCK_HAVE_UNDO) > 0));
+        assert(has_pos(status as int) == (status & BLOCK_HAVE_DATA > 0));
+        assert(status & 8u64 > 0 ==> status & 24u64 > 0) by(bit_vector);
 //@end
 }
 
